@@ -657,16 +657,17 @@ zgsisx(superlu_options_t *options, SuperMatrix *A, int *perm_c, int *perm_r,
 	}
     }
 
-    if ( options->PivotGrowth ) {
-	if ( *info > 0 ) {
-	    if ( nofact ) Destroy_CompCol_Permuted(&AC);
-	    if ( A->Stype == SLU_NR ) {
-		Destroy_SuperMatrix_Store(AA);
-		SUPERLU_FREE(AA);
-	    }
-	    return;
+    if ( *info > A->ncol ) { /* memory allocation failure: L and U were not created */
+	if ( nofact ) Destroy_CompCol_Permuted(&AC);
+	if ( A->Stype == SLU_NR ) {
+	    Destroy_SuperMatrix_Store(AA);
+	    SUPERLU_FREE(AA);
 	}
+	return;
+    }
 
+    if ( options->PivotGrowth ) {
+	/* 0 < *info <= A->ncol only counts the zero pivots that were replaced. */
 	/* Compute the reciprocal pivot growth factor *recip_pivot_growth. */
 	*recip_pivot_growth = zPivotGrowth(A->ncol, AA, perm_c, L, U);
     }
